@@ -5,7 +5,7 @@ import re
 
 from rulelib import (walk, match_table, path_sig, event_strs, canon, atom_str, leaf_str, where, depth_limit,
                      nonpanic, const_int)
-from pathwalk import const_val
+from pathwalk import const_val, strip_refs
 from mirlib import AnchorMissing
 
 VERIF = os.path.dirname(os.path.dirname(os.path.dirname(os.path.abspath(__file__))))
@@ -1353,6 +1353,43 @@ def proto_io_adapters(ctx, rid):
     ctx.check(rid, "QuicSendStream::poll_write (proto AsyncWrite)", sg == ["return <SendStream as AsyncWrite>::poll_write(self.0,cx,buf)"] or (len(sg) == 1 and re.match(r"^return <SendStream as AsyncWrite>::poll_write\(.*self\.0.*,cx,buf\)$", sg[0])), "QuicSendStream's AsyncWrite impl changed: %s" % sg, where(f))
 
 
+
+# ------------------------------------------------------------------ stream handles delegate I/O to the quinn stream unchanged
+
+def stream_io_delegation(ctx, rid):
+    """The data path of a stream is `public wrapper -> Quic{Send,Recv}Stream -> quinn`: every hop passes the caller's buffer, returns the
+    inner call's count / end-of-stream marker unchanged, `write_all` is quinn's `write_all` (not a single partial `write`), and every tokio
+    AsyncRead/AsyncWrite method forwards to the *same* method of the wrapped stream (`poll_shutdown` is what sends the FIN)."""
+    A = ctx.A
+    nio = 0
+    for g in A.fn_list:
+        m = re.match(r"^<wtransport::(.*) as tokio::io::Async(Read|Write)>::(poll_\w+)$", g.path)
+        if not m or not g.body:
+            continue
+        nio += 1
+        sg = [path_sig(p)[1] for p in nonpanic(walk(g))]
+        ctx.check(rid, "%s::%s (tokio) delegates to the same method" % (m.group(1).split("::")[-1], m.group(3)),
+                  len(sg) == 1 and re.match(r"^return (<\w+ as Async(Read|Write)>|Async(Read|Write))::%s\(self\.[\w.]+,cx(,\w+)?\)$" % m.group(3), sg[0]) is not None,
+                  "%s does not delegate to the wrapped stream's %s: %s" % (g.path, m.group(3), sg), where(g), key="tokio delegation|%s" % g.path.replace("wtransport::", ""))
+    ctx.floor(rid, "tokio AsyncRead/AsyncWrite methods", nio, 12)
+    for nm in ("write", "write_all"):
+        f = A.find1(r"^wtransport::driver::streams::QuicSendStream::%s::\{closure#0\}$" % nm)
+        sg = sorted(path_sig(p)[1] for p in nonpanic(walk(f)))
+        W = "await(SendStream::%s(self.0,buf))" % nm
+        want = sorted(["return Result::Err(err(%s))" % W, ("return Result::Ok(ok(%s))" % W) if nm == "write" else "return Result::Ok(())"])
+        ctx.check(rid, "QuicSendStream::%s passes buf/count/error through" % nm, sg == want, "QuicSendStream::%s does not pass buf/count/error through unchanged: %s" % (nm, sg), where(f))
+    f = A.find1(r"^wtransport::driver::streams::QuicRecvStream::read::\{closure#0\}$")
+    R = r"await\(RecvStream::read\(self\.0,buf\)\)"
+    sg = sorted(path_sig(p)[1] for p in nonpanic(walk(f)))
+    ctx.check(rid, "QuicRecvStream::read returns quinn's count and end-of-stream marker", len(sg) == 3 and any(re.match(r"^return Result::Ok\(Option::Some\(ok\(ok\(%s\)\)\)\)$" % R, l) for l in sg) and "return Result::Ok(Option::None)" in sg,
+              "QuicRecvStream::read alters quinn's result: %s" % sg, where(f))
+    for ty, nm, inner in (("SendStream", "write", "QuicSendStream::write(self.0,buf)"), ("SendStream", "write_all", "QuicSendStream::write_all(self.0,buf)"),
+                          ("SendStream", "finish", "QuicSendStream::finish(self.0)"),
+                          ("RecvStream", "read", "QuicRecvStream::read(self.0,buf)"), ("RecvStream", "read_exact", "QuicRecvStream::read_exact(self.0,buf)")):
+        f = A.find1(r"^wtransport::stream::%s::%s::\{closure#0\}$" % (ty, nm))
+        sg = [path_sig(p)[1] for p in nonpanic(walk(f))]
+        ctx.check(rid, "%s::%s delegates unchanged" % (ty, nm), sg == ["return await(%s)" % inner], "%s::%s does not delegate unchanged: %s" % (ty, nm, sg), where(f))
+
 # ------------------------------------------------------------------ public accept wrappers delegate before anything else
 
 def accept_wrappers(ctx, rid):
@@ -1376,6 +1413,34 @@ def accept_wrappers(ctx, rid):
         ctx.check(rid, "Connection::%s asks the driver first on every path" % nm, bool(ps) and not bad,
                   "Connection::%s can return without (or decides before) awaiting Driver::%s: items already handed to the session's queue would never be delivered: %s" % (nm, nm, bad[:2]),
                   where(f), key="Connection::%s asks the driver first" % nm)
+    connection_error_source(ctx, rid, ("accept_uni", "accept_bi", "receive_datagram"))
+
+
+def error_values(paths):
+    """canonical error values a function can return: `Err(e)` leaves as they are, a returned `x.map_err(F)` as `F(err(x))`"""
+    out = set()
+    for p in paths:
+        if p.leaf[0] != "return":
+            continue
+        v = strip_refs(p.leaf[1])
+        if isinstance(v, tuple) and v[0] == "call" and v[1].endswith("result::Result::map_err") and len(v[2]) == 2:
+            out.add(canon(("apply", v[2][1], ("err", v[2][0]))))
+        elif isinstance(v, tuple) and v[0] == "agg" and len(v) > 5 and v[3] == "Err" and v[5]:
+            out.add(canon(v[5][0]))
+    return out
+
+
+def connection_error_source(ctx, rid, names):
+    """the error of a `Connection` operation that waits on the peer is built from the *driver's* error (which carries the capsule's /
+    clean finish's code and reason) and only falls back to the QUIC close reason inside `with_driver_error`"""
+    A = ctx.A
+    for nm in names:
+        f = A.find1(r"^wtransport::connection::Connection::%s::\{closure#0\}$" % nm)
+        ev = error_values(nonpanic(walk(f)))
+        want = {"ConnectionError::with_driver_error(err(await(Driver::%s(self.driver,self.session_id))),self.quic_connection)" % nm}
+        ctx.check(rid, "Connection::%s reports the driver's error" % nm, ev == want,
+                  "Connection::%s builds its error from %s, expected %s (the session's termination cause lives in the driver's error)" % (nm, sorted(ev), sorted(want)),
+                  where(f), key="Connection::%s error source" % nm)
 
 
 # ------------------------------------------------------------------ buffer cursor accessors
